@@ -105,6 +105,38 @@ Section Jwt.
     end.
 End Jwt.
 
+(* api/server.go WithJwt :143-149 / WithJwtTransition :153-161 and engine.go appendAuthHandler :56-70.
+   Secrets are identifiers (0 = ""); the byte lengths are carried next to them because validateSecret
+   looks at the length of the CURRENT secret only (the previous one is deliberately not validated). *)
+Inductive jwt_opt :=
+| JNone                                                    (* no jwt option on the route group *)
+| JJwt (secret : N) (len : Z)                              (* WithJwt(secret) *)
+| JTransition (secret : N) (len : Z) (prev : N) (prev_len : Z).   (* WithJwtTransition(secret, prev) *)
+
+(* validateSecret :289-293 panics below 8 bytes *)
+Definition validate_secret (len : Z) : bool := 8 <=? len.
+
+(* featuredRoutes.jwt after the option: (enabled, secret, prevSecret); None = the option panicked *)
+Definition jwt_setting (o : jwt_opt) : option (bool * N * N) :=
+  match o with
+  | JNone => Some (false, 0%N, 0%N)
+  | JJwt secret len => if validate_secret len then Some (true, secret, 0%N) else None
+  | JTransition secret len prev _ => if validate_secret len then Some (true, secret, prev) else None
+  end.
+
+Section EngineJwt.
+  Variable jwt_parse : N -> N -> jverdict.
+
+  (* appendAuthHandler: jwt.enabled ? (len(prevSecret) == 0 ? Authorize(secret) : Authorize(secret,
+     WithPrevSecret(prev))) : nothing; the engine's unauthorized callback is nil unless set *)
+  Definition engine_jwt_gate (setting : bool * N * N) (now : Z) (p : pstate) (tok : N) : pstate * jout :=
+    let '(enabled, secret, prev) := setting in
+    if enabled then
+      if (prev =? 0)%N then authorize jwt_parse CbNone now p secret 0%N tok
+      else authorize jwt_parse CbNone now p secret prev tok
+    else (p, mkj 200 true [] false).
+End EngineJwt.
+
 (* The library reads the clock (jwt.TimeFunc) while validating exp/nbf/iat: its verdict is a function
    of the time of the request. jwt_at jt = the library at wall-clock reading jt.
    A history of requests through one middleware instance: ((timex now, wall-clock jt), token). *)
